@@ -56,9 +56,15 @@ let parse_item (w : string) : item =
   match w.[0] with
   | 'S' -> IStr (str_of_hex rest)
   | 'N' -> INum (z_of_decimal rest)
-  | 'C' -> (match String.index_opt rest '.' with
-            | Some i -> ICall (nat_of_int (int_of_string (String.sub rest 0 i)), str_of_hex (String.sub rest (i + 1) (String.length rest - i - 1)))
-            | None -> raise Bad)
+  | 'C' -> (* C<kind><id>.<hex>: the kind is the C++ shape of the callable; the model carries it and ignores it *)
+      if rest = "" then raise Bad else
+      let k = (match rest.[0] with
+               | 'o' -> KFunctor | 'l' -> KLambda | 'p' -> KFunPtr | 'f' -> KStdFunL | 'F' -> KStdFunR
+               | 'c' -> KStdFunCStr | 'k' -> KConstObj | 'v' -> KLambdaVar | _ -> raise Bad) in
+      let rest = String.sub rest 1 (String.length rest - 1) in
+      (match String.index_opt rest '.' with
+       | Some i -> ICall (k, nat_of_int (int_of_string (String.sub rest 0 i)), str_of_hex (String.sub rest (i + 1) (String.length rest - i - 1)))
+       | None -> raise Bad)
   | _ -> raise Bad
 
 let parse_items (w : string) : item list = if w = "." then [] else List.map parse_item (String.split_on_char ',' w)
